@@ -437,6 +437,10 @@ func (in *c11Inst) apply(op c11Op) (*c11Obs, error) {
 	return last, in.invariants(last)
 }
 
+func c11TagIn(tags, tag string) bool {
+	return strings.Contains(tags, "["+tag+"=") || strings.Contains(tags, " "+tag+"=")
+}
+
 // invariants holds at every quiescent state.
 func (in *c11Inst) invariants(o *c11Obs) error {
 	sy, cfg := in.sy, in.sy.cfg
@@ -455,12 +459,13 @@ func (in *c11Inst) invariants(o *c11Obs) error {
 	}
 	for c, cs := range cfg.Clients {
 		id := sy.ids[c].id
-		if in.circuitsOf(c) == 0 && sy.hasTag(id, relayHopTag) {
+		_ = id
+		if in.circuitsOf(c) == 0 && c11TagIn(o.Tags[cs.Label], relayHopTag) {
 			return seqmc.Violation("hop-tag-left-without-circuit", "%s has no open circuit but still carries the tag %q; %s", cs.Label, relayHopTag, o)
 		}
 		if _, live := in.rsv[c]; !live {
 			why := in.ended[c]
-			if sy.hasTag(id, c11ResTag) {
+			if c11TagIn(o.Tags[cs.Label], c11ResTag) {
 				if why == "" {
 					why = "never-granted"
 				}
